@@ -14,4 +14,4 @@ run_one() {
   echo "done $b: $(tr '\n' ' ' < /tmp/benignmx/$b.txt)"
 }
 export -f run_one
-ls /verif/benign | grep -v README | xargs -P 2 -I{} bash -c 'run_one {}'
+ls /verif/benign | grep -v README | xargs -P 4 -I{} bash -c 'run_one {}'
